@@ -36,7 +36,7 @@ theorem emitX86R_invalidRex (opcode options opReg rbReg : BitVec 32) (imm : BitV
 theorem x86R_parsedO (rule : Rule) (opcode options opReg rbReg : BitVec 32) (imm : BitVec 64) (n : Nat)
     (hopc : opcode &&& 0xF7801C00#32 = 0#32) (hopt : options &&& 0x3FFFFFFF#32 = 0#32) (ho : opReg < 16#32) (hb : rbReg < 16#32)
     (hok : ¬ (extractRex opcode options ||| ((opReg &&& 8#32) >>> 1) ||| ((rbReg &&& 8#32) >>> 3)) > 0x80#32)
-    (R : LegRule rule n ((opcode >>> 21) &&& 3#32).toNat) (A : LegAgree rule opcode) :
+    (d : Nat) (R : LegRuleD rule n ((opcode >>> 21) &&& 3#32).toNat d) (A : LegAgree rule opcode) :
     ∃ bytes p, emitX86R opcode options opReg rbReg imm n = .ok bytes ∧ parse true rule bytes = .ok p ∧
       LegParsed rule p (modrmRR opReg rbReg) ((opcode >>> 21) &&& 3#32).toNat ∧
       regNum false p.R (bits (modrmRR opReg rbReg) 3 3) = opReg.toNat ∧
@@ -200,7 +200,7 @@ theorem arith8_formOk (ctx : Spec.X86.Ctx) (rule : Rule) (opcode r0 r1 : BitVec 
   by_cases hok : (extractRex opcode opt2 ||| ((rg &&& 8#32) >>> 1) ||| ((rb &&& 8#32) >>> 3)) > 0x80#32
   · rw [emitX86R_invalidRex opcode opt2 rg rb 0 0 hok] at hb
     cases hb
-  · obtain ⟨bytes', p, hb', hp, P, hR, hB, -, hrex, hvk⟩ := x86R_parsedO rule opcode opt2 rg rb 0 0 hopc hoptm hrg16 hrb16 hok R A
+  · obtain ⟨bytes', p, hb', hp, P, hR, hB, -, hrex, hvk⟩ := x86R_parsedO rule opcode opt2 rg rb 0 0 hopc hoptm hrg16 hrb16 hok 8 R A
     rw [hb'] at hb
     injection hb with hb
     subst hb
@@ -259,5 +259,87 @@ theorem arith8_formOk (ctx : Spec.X86.Ctx) (rule : Rule) (opcode r0 r1 : BitVec 
             split at hok <;> rename_i hge <;> simp only [hge, ↓reduceIte] <;> refine ⟨?_, ?_, ?_, ?_⟩ <;> bv_decide
           · have b := h0' rfl
             refine ⟨?_, ?_, ?_, ?_⟩ <;> bv_decide
+
+/-! ### one register operand in ModRM.rm, opcode-extension digit in ModRM.reg, imm8: shifts / rotates by an immediate, `op r8, imm8` -/
+
+theorem regOkB_plain (k : RegKind) (i n : Nat) (p : Parsed) (hk : PlainKind k) (hn : n = i) : regOkB k i n p = true := by
+  subst hn
+  have := regConds_plain "" k n n p hk
+  simp [regOkB, this]
+
+theorem modrmRR_reg (a b : BitVec 32) (ha : a < 8#32) : bits (modrmRR a b) 3 3 = a.toNat :=
+  toNat_eq_of_zext _ _ (by omega) (by simp only [modrmRR, encodeMod]; bv_decide)
+
+/-- options and register number the classes hand to `EmitX86R` for ONE register operand of kind `k` -/
+def fix1 (k : RegKind) (r : BitVec 32) : BitVec 32 × BitVec 32 := if k == .gpb || k == .gpbhi then fixK 0#32 k r else (0#32, r)
+
+/-- shape [rm, imm8] with digit `d`: whatever `EmitX86R` emits (when it accepts) satisfies the monitor - ALL registers of ALL sizes, incl.
+AH..BH (4..7, no REX) and SPL..DIL (forced REX) -/
+theorem rmImm8_formOk (ctx : Spec.X86.Ctx) (rule : Rule) (opcode d r0 : BitVec 32) (k0 : RegKind) (f0 f3 : FormOp) (imm : BitVec 64)
+    (hm64 : ctx.mode64 = true) (hmode : (rule.modes &&& 2 != 0) = true) (hopc : opcode &&& 0xF7801C00#32 = 0#32)
+    (hk0 : k0 = .gpb ∨ k0 = .gpbhi ∨ PlainKind k0) (hd : d < 8#32)
+    (h0 : r0 < 16#32) (h0' : k0 = .gpbhi → r0 < 4#32)
+    (R : LegRuleD rule 1 ((opcode >>> 21) &&& 3#32).toNat d.toNat) (A : LegAgree rule opcode)
+    (hr0 : f0.role = .rm) (hf3 : f3.role = .imm) (hib : immBitsOf f3 = 8) (hsg : (immSignOf f3 == 1) = false)
+    (hal : alignOps rule.oszEff rule.ops [.reg k0 r0.toNat, .imm imm] = some [(f0, some (.reg k0 r0.toNat)), (f3, some (.imm imm))])
+    (bytes : List (BitVec 8))
+    (hb : emitX86R opcode (fix1 k0 r0).1 d (fix1 k0 r0).2 imm 1 = .ok bytes) :
+    formOk ctx rule [.reg k0 r0.toNat, .imm imm] {} bytes = true := by
+  generalize hopt : (fix1 k0 r0).1 = opt at hb
+  generalize hrb : (fix1 k0 r0).2 = rb at hb
+  have hfacts : opt &&& 0x3FFFFFFF#32 = 0#32 ∧ rb < 16#32 := by
+    rw [← hopt, ← hrb]
+    rcases hk0 with h | h | h
+    · subst h
+      simp only [fix1, fixK, oRex, oInvalidRex, beq_self_eq_true, Bool.true_or, ↓reduceIte, show (RegKind.gpb == RegKind.gpbhi) = false from rfl, Bool.false_eq_true]
+      split <;> refine ⟨?_, ?_⟩ <;> bv_decide
+    · subst h
+      have a := h0' rfl
+      simp only [fix1, fixK, oRex, oInvalidRex, beq_self_eq_true, Bool.or_true, ↓reduceIte]
+      refine ⟨?_, ?_⟩ <;> bv_decide
+    · obtain ⟨n1, n2, -⟩ := h
+      have e1 : (k0 == RegKind.gpb) = false := by simpa using n2
+      have e2 : (k0 == RegKind.gpbhi) = false := by simpa using n1
+      simp only [fix1, e1, e2, Bool.or_self, Bool.false_eq_true, ↓reduceIte]
+      exact ⟨by decide, h0⟩
+  obtain ⟨hoptm, hrb16⟩ := hfacts
+  by_cases hok : (extractRex opcode opt ||| ((d &&& 8#32) >>> 1) ||| ((rb &&& 8#32) >>> 3)) > 0x80#32
+  · rw [emitX86R_invalidRex opcode opt d rb imm 1 hok] at hb
+    cases hb
+  · obtain ⟨bytes', p, hb', hp, P, hR, hB, hi, hrex, hvk⟩ := x86R_parsedO rule opcode opt d rb imm 1 hopc hoptm (by bv_decide) hrb16 hok d.toNat R A
+    rw [hb'] at hb
+    injection hb with hb
+    subst hb
+    refine leg_rm_imm8_formOkG ctx rule p _ _ _ d.toNat k0 f0 f3 _ imm (by simpa [hm64] using hmode) R
+      (by simpa [BitVec.lt_def] using hd) (modrmRR_reg d rb hd) hr0 hf3 hib hsg (by simp [hi, emitImmediate]) ?_ hal (by rw [hm64]; exact hp) P
+    rw [hB]
+    rcases hk0 with h | h | h
+    · subst h
+      have e : rb = r0 := by rw [← hrb]; simp [fix1, fixK]
+      refine regOkB_gpb _ _ p (by rw [e]) ?_
+      intro h4 h8 hnone
+      have hz := (hrex.mp hnone).1
+      have h4' : r0 ≥ 4#32 := by simpa [BitVec.le_def] using h4
+      rw [← hopt] at hz
+      simp only [fix1, fixK, oRex, oInvalidRex, beq_self_eq_true, Bool.true_or, ↓reduceIte, show (RegKind.gpb == RegKind.gpbhi) = false from rfl,
+        Bool.false_eq_true, h4'] at hz
+      bv_decide
+    · subst h
+      have e : rb = r0 + 4#32 := by rw [← hrb]; simp [fix1, fixK]
+      have a := h0' rfl
+      refine regOkB_gpbhi _ _ p ?_ (hrex.mpr ?_)
+      · rw [e]
+        have : r0.toNat < 4 := by simpa [BitVec.lt_def] using a
+        simp [BitVec.toNat_add]; omega
+      · simp only [extractRex] at hok
+        rw [← hopt, ← hrb] at hok ⊢
+        simp only [fix1, fixK, oRex, oInvalidRex, beq_self_eq_true, Bool.or_true, ↓reduceIte] at hok ⊢
+        refine ⟨?_, ?_, ?_, ?_⟩ <;> bv_decide
+    · have e : rb = r0 := by
+        obtain ⟨n1, n2, -⟩ := h
+        have e1 : (k0 == RegKind.gpb) = false := by simpa using n2
+        have e2 : (k0 == RegKind.gpbhi) = false := by simpa using n1
+        rw [← hrb]; simp [fix1, e1, e2]
+      exact regOkB_plain k0 _ _ p h (by rw [e])
 
 end AsmjitVerif.Props.C01
